@@ -148,6 +148,19 @@ class World:
                 space.write(name, {"component.xml": packages.component_xml(
                     ctypes, self.base)})
                 self.schema_level = (name, ctypes)
+        # a component that defines an implementer and then fails (its
+        # second type extends a type nobody defines): importing it is
+        # refused every time and contributes nothing
+        self.broken = None
+        self.broken_types = []
+        if self.base:
+            self.broken = space.new_name("broken")
+            bt = packages.gen_component_types(rng, model, "bk", 2)
+            bt[1]["extends"] = "no-such-base-type"
+            bt[1]["children"] = []
+            space.write(self.broken, {"component.xml":
+                                      packages.component_xml(bt, self.base)})
+            self.broken_types = bt
         self.plain_module = space.new_name("mod")
         space.write(self.plain_module, {}, module_only=True)
         self.no_component = space.new_name("nocomp")
@@ -259,7 +272,8 @@ def gen_text(rng, w):
             bad = rng.choice([w.plain_module, w.no_component,
                               "zcvpkg_no_such_package", "os",
                               "zcvpkg..x"] +
-                             ([w.base] if w.base else []))
+                             ([w.base] if w.base else []) +
+                             ([w.broken] * 3 if w.broken else []))
             if rng.random() < 0.2:
                 # a name that only becomes empty (or blank) when expanded
                 lines.append("%define zcv_nothing" + rng.choice(["", "  "]))
@@ -280,6 +294,9 @@ def gen_text(rng, w):
                 continue
             res_all = w.resolved_with([n for n, _ in w.components])
             concrete = res_all.concrete_names()
+            if w.broken_types and rng.random() < 0.25:
+                # a type only the component that cannot be imported has
+                concrete = [w.broken_types[0]["name"]]
             pick = rng.random()
             if pick < 0.75 and concrete:
                 t = rng.choice(concrete)
@@ -456,7 +473,13 @@ def run_world(ctx, w, hook, rng):
     res = ctx.res
     hook.app_ids = set(id(w.schema.gettype(a)) for a in w.abstracts)
     comp_types = set(t["name"] for _, ts in w.components for t in ts)
+    # (a component that fails half-way has already registered the
+    # implementers it defined before the failure: same mechanism)
+    comp_types |= set(t["name"] for t in w.broken_types)
     for_validator = None
+    from ZConfig.loader import ConfigLoader
+    long_lived = ConfigLoader(w.schema)
+    earlier = []
     for _ in range(SEQS[ctx.tier]):
         for li in range(rng.randint(1, 4)):
             text, kinds = gen_text(rng, w)
@@ -495,6 +518,34 @@ def run_world(ctx, w, hook, rng):
                         res.count("override_addresses_imported_type")
             if via == "text":
                 obs = outcome.load_text(w.schema, text)
+                # ... and through the one loader object that has read every
+                # earlier text of this world: each load starts from the
+                # application schema
+                if exp[0] != "unjudged":
+                    o2 = outcome._finish(
+                        lambda: long_lived.loadFile(io.StringIO(text)))
+                    res.count("loads_by_long_lived_loader")
+                    want = ("ok", exp[1]) if exp[0] == "accept" \
+                        else ("reject",)
+                    got = ("ok", o2[1]) if o2[0] == "ok" else ("reject",)
+                    if want != got:
+                        res.violate(
+                            "long-lived-loader-differs",
+                            {"xml": w.xml, "text": text, "via": "loader",
+                             "earlier_texts": list(earlier[-6:]),
+                             "components": [[n, ts]
+                                            for n, ts in w.components],
+                             "imports": dict(w.imports),
+                             "broken": [w.broken, w.broken_types],
+                             "schema_level": list(w.schema_level)
+                             if w.schema_level else None, "model": w.model},
+                            list(exp[:2]) if exp[0] == "reject" else exp[1],
+                            list(o2[:2]) if o2[0] == "ok" else list(o2[:6]),
+                            detail="one ConfigLoader for every text of the "
+                            "world; this text=%r; before it=%r"
+                            % (text, earlier[-3:]),
+                            vsig="longlived|%s|%s" % (exp[0], o2[0]))
+                earlier.append(text)
             hook.phase = "schema"
             after = w.subtype_tables()
             case = {"xml": w.xml, "text": text, "load_index": li, "via": via,
@@ -582,6 +633,7 @@ def run_shard(ctx):
     space = packages.PackageSpace(os.path.join(ctx.tmp, "pkgs"),
                                   "c12s%d" % ctx.shard)
     space.split_every = 5
+    space.odd_every = 4
     hook = Hook(ctx.res)
     hook.install()
     try:
@@ -620,6 +672,11 @@ def replay(ctx, case):
             space.write(n, {"component.xml": packages.component_xml(
                 ts, base.group(1) if base else None, imports.get(n, ()))})
 
+        if case.get("broken") and case["broken"][0]:
+            space.write(case["broken"][0], {
+                "component.xml": packages.component_xml(
+                    case["broken"][1], base.group(1) if base else None)})
+
         class W:
             pass
         w = W()
@@ -639,7 +696,15 @@ def replay(ctx, case):
             return
         schema = ZConfig.loadSchemaFile(io.StringIO(case["xml"]))
         exp = expected(w, case["text"])
-        obs = outcome.load_text(schema, case["text"])
+        if case.get("via") == "loader":
+            from ZConfig.loader import ConfigLoader
+            ld = ConfigLoader(schema)
+            for t in case.get("earlier_texts", ()):
+                outcome._finish(lambda: ld.loadFile(io.StringIO(t)))
+            obs = outcome._finish(
+                lambda: ld.loadFile(io.StringIO(case["text"])))
+        else:
+            obs = outcome.load_text(schema, case["text"])
         if exp[0] == "accept" and (obs[0] != "ok" or obs[1] != exp[1]):
             ctx.res.violate("refused-or-differs", case, list(exp[:2]),
                             list(obs[:6]))
